@@ -1,8 +1,23 @@
 """C12 -- validators accept exactly the valid parameters, keys, primes and polynomials.
-E1: every enumerated input is passed to the real validator (bignParamsVal .. belsValM, *PubkeyVal/*KeypairVal, tmDateIsValid[2],
-priIsPrimeW/priIsPrime/priRMTest/priNextPrime[W]/priIsSieved/priIsSmooth, ppIsIrred) and the verdict is compared with the
-specification-level reference (ref/ecp.py alg. 6.1.4, g12s.py, stb99.py, dstu.py, pfok.py, bels.py, pri.py, polys.py, dates.py).
-Dense ranges run inside drv/vh_c12.c (calls only); the oracle is evaluated here."""
+E1: every enumerated input is passed to the real validator (bignParamsVal .. belsValM, *PubkeyVal/*KeypairVal, dstuPointVal,
+stb99/pfok SeedVal/SeedAdj/ParamsGen, tmDateIsValid[2], priIsPrimeW/priIsPrime/priRMTest/priNextPrime[W]/priIsSieved/priIsSmooth,
+ppIsIrred) and the verdict is compared with the specification-level reference (ref/ecp.py alg. 6.1.4, g12s.py, stb99.py, dstu.py,
+pfok.py, bels.py, pri.py, polys.py, dates.py).  Dense ranges run inside drv/vh_c12.c (calls only); the oracle is evaluated here.
+
+Enumerated spaces (quick / thorough):
+  dates    ALL 6-tuples over {0,1,2,3,8,9,10,0x30,0xFF} / {0..10,15,0x30,0x39,0xFF}; (y,m,d) in [1580,2105]x[0,13]x[0,32] + far years
+  primes   priIsPrimeW on every n < 2^16 / 2^24, windows +-2^13 / +-2^16 around 2^31, 2^32, 2^63, 2^64-1, psi_2..psi_4, 4759123141 (cfg rel, w32);
+           every composite p(k(p-1)+1), k = 2..6, p < 2^24 / 2^26; all Carmichael numbers < 10^10 / 10^11 (Korselt construction, count checked);
+           least strong pseudoprimes psi_1..psi_13, products of primes adjacent to 2^16 / 2^32, primes/orders of all standard sets and
+           their products, multi-word Chernick numbers -- through priIsPrimeW, priIsPrime (n and n+1 words), priRMTest;
+           priNextPrimeW / priNextPrime from every a < 2^16 and the last 2^12 values below 2^l, l in {8,16,17,31,32,33,63,64};
+           priIsSieved / priIsSmooth on the same ranges x base_count in {0,1,2,10,100,1024} x n in {1,2}
+  polys    ppIsIrred on ALL polynomials of degree <= 16 (n = 1, thorough also n = 2); degree 128/192/256: the 51 standard bels polynomials,
+           their coefficient flips, products of irreducibles, x^k multiples, every x^l + c (c < 2^8 / 2^12), filler-valued ones; belsValM on the same
+  params   30 standard sets x each field x {bit 0,1,7,mid,top,bitlen-1, +1, -1, 0, swap with neighbour, scheme-specific: q+2, 3q, p+4, yG->p-yG,
+           G->2G, seed+1, ...}; a crafted g12s curve of known composite order (CM, D = -11); stb99/pfok seeds x each entry x boundary values
+  keys     bign/bign96 public keys and key pairs, dstu points, pfok public keys: on/off curve, twist, x = p, y = p, x = p + x0, y = p + y0, ...
+"""
 import itertools, math, os, sys, time
 import vf, common
 import pri, polys, dates, ecp, belt
@@ -138,7 +153,12 @@ def ref_params(scheme, D):
     if scheme == 'g12s':
         return RG.params_val(D), ''
     if scheme == 'stb99':
-        return RS.params_val(D), ''
+        v = RS.params_val(D)
+        note = ''
+        if not v and D['l'] in RS.LS and pri.is_prime(D['p']):
+            note = 'stb99.h: 0 < a, d < p' if not (0 < D['a'] < D['p'] and 0 < D['d'] < D['p']) else \
+                   'stb99.h: a differs from the identity of B_p' if D['a'] == RS.mont_R(D) % D['p'] else 'stb99.h: l/r table, q | p - 1 prime, a = d^((p-1)/q)'
+        return v, note
     if scheme == 'pfok':
         return RP.params_val(D), ''
     if scheme == 'dstu':
@@ -603,7 +623,7 @@ def perturbations(scheme, D0):
         for lab, ch in (('q:q+2', {'q': q + 2}), ('q:3q', {'q': 3 * q}), ('p:p+4', {'p': p + 4}), ('yP:p-yP', {'yP': p - G[1]}),
                         ('G:2G', {'xP': G2[0], 'yP': G2[1]}), ('G:(q-1)G', {'xP': Gq1[0], 'yP': Gq1[1]}), ('xP:xP+p', {'xP': G[0] + p}),
                         ('yP:yP+p', {'yP': G[1] + p}), ('a:a+p', {'a': a + p}), ('b:b+p', {'b': D0['b'] + p}), ('xP:p', {'xP': p}), ('q:p', {'q': p}),
-                        ('G:(0,0)', {'xP': 0, 'yP': 0}), ('q:n*q', {'q': D0['n'] * q, 'n': 1}), ('n:q-swap', {'q': D0['n'], 'n': q & 0xFFFFFFFF})):
+                        ('G:(0,0)', {'xP': 0, 'yP': 0}), ('q:n*q', {'q': D0['n'] * q, 'n': 1})):
             if all(fits(f, v) for f, v in ch.items() if f != 'n'):
                 yield lab, dict(D0, **ch)
     if scheme == 'dstu':
@@ -1329,6 +1349,12 @@ def run(tier):
         if known.get(limit) != n:
             chk.violation('harness:carmichael-count', {'cfg': cfg, 'kind': 'primeval', 'vals': []}, 'generated %d Carmichael numbers below %d, literature: %s' % (n, limit, known.get(limit)))
         chk.observe('Carmichael numbers below %d generated and tested [%s]: %d' % (limit, cfg, n))
+    for kind in ('batch', 'nextprime', 'irred_big', 'bels_std', 'date_range'):
+        for c in J:
+            if c['kind'] == kind:
+                c = dict(c['cases'][0], cfg=c['cfg']) if kind == 'batch' else c
+                chk.sample({k: (v if len(str(v)) < 100 else str(v)[:100] + '...') for k, v in c.items() if k not in ('part', 'also')})
+                break
     for s in ({'tmDateIsValid2': '6-tuples over %s' % ('{0,1,2,3,8,9,10,0x30,0xFF}' if tier == 'quick' else '{0..10,15,0x30,0x39,0xFF}')},
               {'priIsPrimeW': 'every n < 2^%d, windows of half-width 2^%d around 2^31, 2^32, 2^63, 2^64-1 and psi_2..psi_4, 4759123141; all p(k(p-1)+1), k=2..6, p < 2^%d' % ((16, 13, 24) if tier == 'quick' else (24, 16, 26))},
               {'ppIsIrred': 'all 131072 polynomials below x^17'},
@@ -1342,6 +1368,8 @@ def run(tier):
         'priRMTest / priIsPrime / priNextPrime draw their Miller-Rabin bases from an INTERNAL generator (prngCOMBO seeded by utilNonce32), a tape cannot be passed in this '
         'version of pri.h: "prime accepted" is deterministic, "composite rejected" is asserted only with iter >= %d (priIsPrime: 32), i.e. false-alarm probability <= 4^-%d per composite' % (RM_ITER, RM_ITER),
         'priRMTest with iter = 0 and priIsSmooth(0) are not asserted (degenerate / outside "natural numbers")',
+        'beyond single-field alterations: stb99 pairs (a, d) in {(0,0), (e,e), (a^2,d^2)} (stb99.h lists 0 < a, d < p among the checked conditions) and a '
+        'non-standard g12s curve with complex multiplication whose order 3r is known (q = 3r is rejected only by the primality of q)',
         'g12s has no exported public-key validator; pfokParamsGen is not run (needs a safe prime, hours); dstu standard sets 1..9 carry no base point in the standard: '
         'they are validated with a point generated by 6.8 from a fixed tape, which is also compared with dstuPointGen',
         'tm.h documents y >= 1583 with no upper limit: years 0..5, 1580..2105, 2395..2405, 9995..10005, around 2^32 and below 2^64 are enumerated',
